@@ -68,7 +68,7 @@ def classTable : List (String × Class × String) := [
   ("haveFields", .perRun, "fields are split"),
   ("fieldNames", .perRun, "CSV header names (F18: fixed in 984841d)"),
   ("fieldIndexes", .perRun, "CSV header name → index (F18)"),
-  ("csvFields", .perRun, "fields of the last row a csvSplitter produced (added by the F13 repair c7bccbd); installed into `fields` by execActions whenever the input mode is CSV/TSV at that moment — also when the current scanner is not a csvSplitter (mode switched at run time after the scanner was created), so a value left by an earlier run is observable: it must be cleared by resetCore"),
+  ("csvFields", .perRun, "fields of the last row a csvSplitter produced (F13 repair c7bccbd); execActions installs it into `fields` whenever the mode is CSV/TSV, also when the current scanner is not a csvSplitter, so it must be cleared by resetCore (G14-1, repaired in d5c3fe1)"),
   ("reparseCSV", .scratch, "only read by ensureFields when haveFields=false; every setLine sets it to true; before the first setLine $0 is empty and both values give no fields"),
   ("argc", .fromConfig, "ARGC = len(Config.Args)+1 (resetCore also zeroes it)"),
   ("convertFormat", .vars, "CONVFMT"),
